@@ -766,9 +766,16 @@ def _parse_source_for_lambda(
 
     # If this is a function, then things are going to be very easy.
     if start_token.string == "def":
-        function_source = _realign_indent(inspect.getsource(ast_source))
-        a_module = ast.parse(function_source)
-        lda = rewrite_func_as_lambda(a_module.body[0])  # type: ignore
+        # An indented function is parsed inside a dummy block: cutting the indent off every
+        # line would also cut into multi-line string literals.
+        function_source = inspect.getsource(ast_source)
+        if function_source[:1].isspace():
+            a_module = ast.parse("if True:\n" + function_source)
+            f_def = a_module.body[0].body[0]  # type: ignore
+        else:
+            a_module = ast.parse(function_source)
+            f_def = a_module.body[0]
+        lda = rewrite_func_as_lambda(f_def)  # type: ignore
     else:
         # Grab all the lambdas on a single line
         lambdas_on_a_line = defaultdict(list)
